@@ -77,14 +77,14 @@ package interpreter
 
 //@ func (*programState).getCachedBalance
 //@   requires [cache] cacheOk(s)
-//@   ensures [cell] {C10} result != nil && known(s, account, asset) && s.CachedBalances[account][asset] == result
+//@   ensures [cell] {C01,C09,C10} result != nil && known(s, account, asset) && s.CachedBalances[account][asset] == result
 //@   ensures [value] {C01,C04,C10} val(result) == old(bal(s, account, asset))
 //@   ensures [default-fresh] {C11} !old(known(s, account, asset)) ==> fresh(ref(result))
 //@   ensures [view-unchanged] {C01,C09,C10} forallstr(a, forallstr(c, bal(s, a, c) == old(bal(s, a, c))))
-//@   ensures [cache-grew] {C10,C11} cacheGrew(s)
+//@   ensures [cache-grew] {C01,C09,C10,C11} cacheGrew(s)
 //@   ensures [cache-owned] {C11} old(cacheOwned(s)) ==> cacheOwned(s)
-//@   ensures [known-grows] {C10} forallstr(a, forallstr(c, old(known(s, a, c)) ==> known(s, a, c)))
-//@   ensures [known-only] {C10} forallstr(a, c, known(s, a, c) && !old(known(s, a, c)) ==> a == account && c == asset)
+//@   ensures [known-grows] {C01,C09,C10} forallstr(a, forallstr(c, old(known(s, a, c)) ==> known(s, a, c)))
+//@   ensures [known-only] {C01,C09,C10} forallstr(a, c, known(s, a, c) && !old(known(s, a, c)) ==> a == account && c == asset)
 //@   ensures [cache-ok] cacheOk(s)
 //@   ensures [inner-grew] {C11} innerGrew(s)
 //@   ensures [owned] {C11} old(cacheOwned(s)) ==> cacheOwned(s)
@@ -501,11 +501,11 @@ package interpreter
 
 //@ func (*programState).batchQuery
 //@   requires [state] queryOk(st)
-//@   ensures [never-world] {C10} forallstr(c, !old(pending(st, "world", c)) ==> !pending(st, "world", c))
-//@   ensures [adds] {C10} account != "world" ==> pending(st, account, asset)
-//@   ensures [keeps] {C10} forallstr(a, c, old(pending(st, a, c)) ==> pending(st, a, c))
-//@   ensures [only] {C10} forallstr(a, c, pending(st, a, c) && !old(pending(st, a, c)) ==> a == account && c == asset && account != "world")
-//@   ensures [no-world-key] {C10} !old(has(st.CurrentBalanceQuery, "world")) ==> !has(st.CurrentBalanceQuery, "world")
+//@   ensures [never-world] {C01,C09,C10} forallstr(c, !old(pending(st, "world", c)) ==> !pending(st, "world", c))
+//@   ensures [adds] {C01,C09,C10} account != "world" ==> pending(st, account, asset)
+//@   ensures [keeps] {C01,C09,C10} forallstr(a, c, old(pending(st, a, c)) ==> pending(st, a, c))
+//@   ensures [only] {C01,C09,C10} forallstr(a, c, pending(st, a, c) && !old(pending(st, a, c)) ==> a == account && c == asset && account != "world")
+//@   ensures [no-world-key] {C01,C09,C10} !old(has(st.CurrentBalanceQuery, "world")) ==> !has(st.CurrentBalanceQuery, "world")
 //@   ensures [state-ok] queryOk(st)
 //@   modifies entries(st.CurrentBalanceQuery)
 
@@ -513,20 +513,20 @@ package interpreter
 //@ func (*programState).findBalancesQueries
 //@   requires [wf] wf(source)
 //@   requires [state] varsOk(st) && queryOk(st)
-//@   ensures [all-needed-requested] {C10} err == nil ==> leavesPending(st, source, st.CurrentAsset)
-//@   ensures [keeps] {C10} forallstr(a, c, old(pending(st, a, c)) ==> pending(st, a, c))
-//@   ensures [never-world] {C10} forallstr(c, !old(pending(st, "world", c)) ==> !pending(st, "world", c))
-//@   ensures [no-world-key] {C10} !old(has(st.CurrentBalanceQuery, "world")) ==> !has(st.CurrentBalanceQuery, "world")
+//@   ensures [all-needed-requested] {C01,C09,C10} err == nil ==> leavesPending(st, source, st.CurrentAsset)
+//@   ensures [keeps] {C01,C09,C10} forallstr(a, c, old(pending(st, a, c)) ==> pending(st, a, c))
+//@   ensures [never-world] {C01,C09,C10} forallstr(c, !old(pending(st, "world", c)) ==> !pending(st, "world", c))
+//@   ensures [no-world-key] {C01,C09,C10} !old(has(st.CurrentBalanceQuery, "world")) ==> !has(st.CurrentBalanceQuery, "world")
 //@   ensures [query-map] st.CurrentBalanceQuery == old(st.CurrentBalanceQuery)
 //@   ensures [state-ok] varsOk(st) && queryOk(st)
 //@   modifies entries(st.CurrentBalanceQuery)
 //@   loop 1
-//@     invariant [visited] {C10} forall(j, 0, iter, leavesPending(st, as(source, *parser.SourceInorder).Sources[j], st.CurrentAsset))
+//@     invariant [visited] {C01,C09,C10} forall(j, 0, iter, leavesPending(st, as(source, *parser.SourceInorder).Sources[j], st.CurrentAsset))
 //@     invariant [keeps] forallstr(a, c, old(pending(st, a, c)) ==> pending(st, a, c))
 //@     invariant [never-world] forallstr(c, !old(pending(st, "world", c)) ==> !pending(st, "world", c)) && (!old(has(st.CurrentBalanceQuery, "world")) ==> !has(st.CurrentBalanceQuery, "world")) && st.CurrentBalanceQuery == old(st.CurrentBalanceQuery)
 //@     invariant [state] varsOk(st) && queryOk(st)
 //@   loop 2
-//@     invariant [visited] {C10} forall(j, 0, iter, leavesPending(st, as(source, *parser.SourceAllotment).Items[j].From, st.CurrentAsset))
+//@     invariant [visited] {C01,C09,C10} forall(j, 0, iter, leavesPending(st, as(source, *parser.SourceAllotment).Items[j].From, st.CurrentAsset))
 //@     invariant [keeps] forallstr(a, c, old(pending(st, a, c)) ==> pending(st, a, c))
 //@     invariant [never-world] forallstr(c, !old(pending(st, "world", c)) ==> !pending(st, "world", c)) && (!old(has(st.CurrentBalanceQuery, "world")) ==> !has(st.CurrentBalanceQuery, "world")) && st.CurrentBalanceQuery == old(st.CurrentBalanceQuery)
 //@     invariant [state] varsOk(st) && queryOk(st)
@@ -539,9 +539,9 @@ package interpreter
 //@   requires [wf] wf(statement)
 //@   requires [state] varsOk(st) && queryOk(st)
 //@   ensures [requested] {C08,C10} err == nil ==> stmtPending(st, statement)
-//@   ensures [keeps] {C10} forallstr(a, c, old(pending(st, a, c)) ==> pending(st, a, c))
-//@   ensures [never-world] {C10} forallstr(c, !old(pending(st, "world", c)) ==> !pending(st, "world", c))
-//@   ensures [no-world-key] {C10} !old(has(st.CurrentBalanceQuery, "world")) ==> !has(st.CurrentBalanceQuery, "world")
+//@   ensures [keeps] {C01,C09,C10} forallstr(a, c, old(pending(st, a, c)) ==> pending(st, a, c))
+//@   ensures [never-world] {C01,C09,C10} forallstr(c, !old(pending(st, "world", c)) ==> !pending(st, "world", c))
+//@   ensures [no-world-key] {C01,C09,C10} !old(has(st.CurrentBalanceQuery, "world")) ==> !has(st.CurrentBalanceQuery, "world")
 //@   ensures [query-map] st.CurrentBalanceQuery == old(st.CurrentBalanceQuery)
 //@   ensures [state-ok] varsOk(st) && queryOk(st)
 //@   modifies entries(st.CurrentBalanceQuery), st.CurrentAsset
@@ -561,27 +561,27 @@ package interpreter
 //@ func (*programState).runBalancesQuery
 //@   external-below ref(st)
 //@   requires [state] queryOk(st) && cacheOk(st) && cacheOwned(st) && st.Store != nil && !has(st.CurrentBalanceQuery, "world")
-//@   ensures [nothing-forgotten] {C10,C11} cacheGrew(st) && heapsame(bigint) && innerGrew(st)
-//@   ensures [coherent] {C09,C10} forallstr(a, c, known(st, a, c) && !old(known(st, a, c)) ==> val(st.CachedBalances[a][c]) == storeBal(a, c))
-//@   ensures [asks-superset-of-need] {C09,C10} result == nil ==> forallstr(a, c, old(pending(st, a, c)) && !old(known(st, a, c)) ==> known(st, a, c) || storeBal(a, c) == 0)
+//@   ensures [nothing-forgotten] {C01,C09,C10,C11} cacheGrew(st) && heapsame(bigint) && innerGrew(st)
+//@   ensures [coherent] {C01,C09,C10} forallstr(a, c, known(st, a, c) && !old(known(st, a, c)) ==> val(st.CachedBalances[a][c]) == storeBal(a, c))
+//@   ensures [asks-superset-of-need] {C01,C09,C10} result == nil ==> forallstr(a, c, old(pending(st, a, c)) && !old(known(st, a, c)) ==> known(st, a, c) || storeBal(a, c) == 0)
 //@   ensures [error-leaves-view] {C12} result != nil ==> forallstr(a, c, known(st, a, c) == old(known(st, a, c)))
 //@   ensures [query-map] st.CurrentBalanceQuery == old(st.CurrentBalanceQuery) || fresh(ref(st.CurrentBalanceQuery))
 //@   ensures [state-ok] queryOk(st) && cacheOk(st) && cacheOwned(st) && !has(st.CurrentBalanceQuery, "world")
 //@   modifies st.CurrentBalanceQuery, entries(st.CachedBalances), innermapsof(st)
 //@   loop 1
-//@     invariant [filtered] {C09,C10} forallstr(a, c, seen(a) && pending(st, a, c) && !known(st, a, c) ==> has(filteredQuery, a) && filteredQuery[a] == st.CurrentBalanceQuery[a])
+//@     invariant [filtered] {C01,C09,C10} forallstr(a, c, seen(a) && pending(st, a, c) && !known(st, a, c) ==> has(filteredQuery, a) && filteredQuery[a] == st.CurrentBalanceQuery[a])
 //@     invariant [fq] filteredQuery != nil && fresh(ref(filteredQuery)) && forallstr(a, has(filteredQuery, a) ==> has(st.CurrentBalanceQuery, a) && filteredQuery[a] == st.CurrentBalanceQuery[a])
 //@     invariant [cache] cacheOk(st) && cacheOwned(st) && cacheGrew(st) && innerGrew(st) && forallstr(a, c, known(st, a, c) == old(known(st, a, c)))
 //@   loop 2
-//@     invariant [filtered-others] {C09,C10} forallstr(a, c, seen(a) && a != accountName && pending(st, a, c) && !known(st, a, c) ==> has(filteredQuery, a) && filteredQuery[a] == st.CurrentBalanceQuery[a])
+//@     invariant [filtered-others] {C01,C09,C10} forallstr(a, c, seen(a) && a != accountName && pending(st, a, c) && !known(st, a, c) ==> has(filteredQuery, a) && filteredQuery[a] == st.CurrentBalanceQuery[a])
 //@     invariant [current] has(st.CurrentBalanceQuery, accountName) && st.CurrentBalanceQuery[accountName] == queriedCurrencies && has(st.CachedBalances, accountName) && st.CachedBalances[accountName] == cachedCurrenciesForAccount
-//@     invariant [inner] {C09,C10} forall(j, 0, iter, !known(st, accountName, queriedCurrencies[j]) ==> has(filteredQuery, accountName) && filteredQuery[accountName] == queriedCurrencies)
+//@     invariant [inner] {C01,C09,C10} forall(j, 0, iter, !known(st, accountName, queriedCurrencies[j]) ==> has(filteredQuery, accountName) && filteredQuery[accountName] == queriedCurrencies)
 //@     invariant [fq] filteredQuery != nil && fresh(ref(filteredQuery)) && forallstr(a, has(filteredQuery, a) ==> has(st.CurrentBalanceQuery, a) && filteredQuery[a] == st.CurrentBalanceQuery[a])
 //@     invariant [cache] cacheOk(st) && cacheOwned(st) && cacheGrew(st) && innerGrew(st) && forallstr(a, c, known(st, a, c) == old(known(st, a, c)))
 //@   loop 3
-//@     invariant [merged] {C09,C10} forallstr(a, c, seen(a) && has(balances, a) && has(balances[a], c) && balances[a][c] != nil ==> known(st, a, c))
-//@     invariant [coherent] {C10,C11} forallstr(a, c, known(st, a, c) && !old(known(st, a, c)) ==> val(st.CachedBalances[a][c]) == storeBal(a, c))
-//@     invariant [asked] {C09,C10} forallstr(a, c, old(pending(st, a, c)) && !old(known(st, a, c)) ==> (has(balances, a) && has(balances[a], c) && balances[a][c] != nil) || storeBal(a, c) == 0)
+//@     invariant [merged] {C01,C09,C10} forallstr(a, c, seen(a) && has(balances, a) && has(balances[a], c) && balances[a][c] != nil ==> known(st, a, c))
+//@     invariant [coherent] {C01,C09,C10,C11} forallstr(a, c, known(st, a, c) && !old(known(st, a, c)) ==> val(st.CachedBalances[a][c]) == storeBal(a, c))
+//@     invariant [asked] {C01,C09,C10} forallstr(a, c, old(pending(st, a, c)) && !old(known(st, a, c)) ==> (has(balances, a) && has(balances[a], c) && balances[a][c] != nil) || storeBal(a, c) == 0)
 //@     invariant [external] {C11} ref(balances) < ref(st) && forallstr(a, has(balances, a) ==> ref(balances[a]) < ref(st))
 //@     invariant [cache-cells] st != nil && st.CachedBalances != nil && cacheCells(st)
 //@     invariant [cache] cacheOwned(st) && cacheGrew(st) && innerGrew(st) && queryOk(st)
@@ -589,12 +589,12 @@ package interpreter
 //@     invariant [cache-cells-distinct] cellsDistinct(st)
 //@   loop 4
 //@     assert [step-head] forallstr(a, c, athead(known(st, a, c)) ==> known(st, a, c) && st.CachedBalances[a][c] == athead(st.CachedBalances[a][c])) && forallstr(a, c, known(st, a, c) && !athead(known(st, a, c)) ==> a == account && c == asset && !athead(allocated(ref(st.CachedBalances[a][c]))))
-//@     invariant [merged-others] {C09,C10} forallstr(a, c, seenOuter(a) && a != account && has(balances, a) && has(balances[a], c) && balances[a][c] != nil ==> known(st, a, c))
+//@     invariant [merged-others] {C01,C09,C10} forallstr(a, c, seenOuter(a) && a != account && has(balances, a) && has(balances[a], c) && balances[a][c] != nil ==> known(st, a, c))
 //@     invariant [current] has(balances, account) && balances[account] == accountBalances && has(st.CachedBalances, account) && st.CachedBalances[account] == cached
 //@     invariant [external] {C11} ref(balances) < ref(st) && forallstr(a, has(balances, a) ==> ref(balances[a]) < ref(st)) && ref(accountBalances) < ref(st) && ref(cached) > ref(st)
-//@     invariant [merged-inner] {C09,C10} forallstr(c, seen(c) && has(accountBalances, c) && accountBalances[c] != nil ==> known(st, account, c))
-//@     invariant [coherent] {C10,C11} forallstr(a, c, known(st, a, c) && !old(known(st, a, c)) ==> val(st.CachedBalances[a][c]) == storeBal(a, c))
-//@     invariant [asked] {C09,C10} forallstr(a, c, old(pending(st, a, c)) && !old(known(st, a, c)) ==> (has(balances, a) && has(balances[a], c) && balances[a][c] != nil) || storeBal(a, c) == 0)
+//@     invariant [merged-inner] {C01,C09,C10} forallstr(c, seen(c) && has(accountBalances, c) && accountBalances[c] != nil ==> known(st, account, c))
+//@     invariant [coherent] {C01,C09,C10,C11} forallstr(a, c, known(st, a, c) && !old(known(st, a, c)) ==> val(st.CachedBalances[a][c]) == storeBal(a, c))
+//@     invariant [asked] {C01,C09,C10} forallstr(a, c, old(pending(st, a, c)) && !old(known(st, a, c)) ==> (has(balances, a) && has(balances[a], c) && balances[a][c] != nil) || storeBal(a, c) == 0)
 //@     invariant [cache-cells] st != nil && st.CachedBalances != nil && cacheCells(st)
 //@     invariant [cache] cacheOwned(st) && cacheGrew(st) && innerGrew(st) && queryOk(st)
 //@     invariant [step-grew] forallstr(a, c, atouter(known(st, a, c)) ==> known(st, a, c) && st.CachedBalances[a][c] == atouter(st.CachedBalances[a][c])) && forallstr(a, c, known(st, a, c) && !atouter(known(st, a, c)) ==> a == account && atouter(allocated(ref(st))) && !atouter(allocated(ref(st.CachedBalances[a][c]))))
@@ -646,8 +646,8 @@ package interpreter
 //@   external-below ref(s)
 //@   requires [state] storeOk(s)
 //@   ensures [store-error-surfaces] {C12} err != nil ==> typeis(err, QueryBalanceError) && result == nil
-//@   ensures [cell] {C10} err == nil ==> result != nil && known(s, account, asset) && s.CachedBalances[account][asset] == result
-//@   ensures [nothing-forgotten] {C10,C11} cacheGrew(s) && heapsame(bigint) && innerGrew(s)
+//@   ensures [cell] {C01,C09,C10} err == nil ==> result != nil && known(s, account, asset) && s.CachedBalances[account][asset] == result
+//@   ensures [nothing-forgotten] {C01,C09,C10,C11} cacheGrew(s) && heapsame(bigint) && innerGrew(s)
 //@   ensures [query-map] s.CurrentBalanceQuery == old(s.CurrentBalanceQuery) || fresh(ref(s.CurrentBalanceQuery))
 //@   ensures [state-ok] queryOk(s) && cacheOk(s) && cacheOwned(s) && s.Store != nil && !has(s.CurrentBalanceQuery, "world")
 //@   modifies s.CurrentBalanceQuery, entries(s.CurrentBalanceQuery), entries(s.CachedBalances), innermapsof(s)
